@@ -59,7 +59,13 @@ impl SockPair {
     /// all datagrams currently queued (one per write call on tx)
     pub fn drain(&self) -> Vec<Vec<u8>> {
         let mut out = vec![];
-        let mut buf = vec![0u8; (1 << 20) + 8192 + 4096];
+        // one receive buffer per thread: a fresh 1 MiB allocation per request dominates the cost of
+        // history-shaped cases (hundreds of requests each), above all under ASan
+        thread_local! {
+            static DRAIN: std::cell::RefCell<Vec<u8>> = std::cell::RefCell::new(vec![0u8; (1 << 20) + 8192 + 4096]);
+        }
+        DRAIN.with(|b| {
+        let mut buf = b.borrow_mut();
         loop {
             let n = unsafe { libc::recv(self.rx, buf.as_mut_ptr() as *mut libc::c_void, buf.len(), libc::MSG_DONTWAIT | libc::MSG_TRUNC) };
             if n < 0 {
@@ -71,6 +77,7 @@ impl SockPair {
                 break;
             }
         }
+        });
         out
     }
 }
